@@ -17,6 +17,11 @@ Proof.
   constructor; [unfold ascii_digit in Hc; lia|auto].
 Qed.
 
+(* str(z): the digit count is checked, then the rendering is returned *)
+Lemma str_of_int_eq lim z :
+  str_of_int lim z = if over_limit lim (ndigits_Z z) then Exn ValueError else Ok (dec_of_Z z).
+Proof. unfold str_of_int, ndigits_Z. destruct z; reflexivity. Qed.
+
 (* ---------------------------------------------------------------- base 10 *)
 Lemma digit_of_10 c : ascii_digit c = true -> digit_of 10 c = Some (c - 48).
 Proof.
